@@ -113,7 +113,7 @@ def run_c08(rep, tier):
     rep.add_trace_stats(st, len(ok))
     for o in ok:
         v = verdicts[o['tid']]
-        fails = sorted(c for (p, c) in v['fails'])
+        fails = sorted(c for (p, c) in v['fails'] if p == 'C08')
         f = v['facts']
         if 'versions' in f:
             rep.keys.add(('Q', f['n'], tuple(f['versions'][:1]), tuple(f['levels'][:1]), str(f['modes'][:1]), o['args']['version'] != 99, o['args']['symbol_count']))
@@ -143,7 +143,7 @@ def replay(pid, d):
         return 1 if bad else 0
     verdicts, _ = common.validate_observations(pid + '_replay', 'Trace_Seq', [o], shards=1, tag='seq')
     v = verdicts[o['tid']]
-    fails = sorted(c for (p, c) in v['fails'])
+    fails = sorted(c for (p, c) in v['fails'] if p == pid)
     print('verdict :', {'failing_clauses': fails, 'facts': v['facts']})
     if not fails:
         return 0
